@@ -2,6 +2,7 @@ package rules
 
 import (
 	"fmt"
+	"strings"
 
 	"golang.org/x/tools/go/ssa"
 
@@ -85,6 +86,81 @@ func c15HalfClose(c *Ctx, px *c15Proxier) {
 				} else {
 					c.Violate("no-full-close-after-forward-copy", key, p.InstrPos(call), "when the client stops sending, the copier fully closes a leg ("+bad+")"+in.at+": the backend's reply to what it just received can no longer be relayed; close the write side only")
 				}
+			}
+		}
+	}
+}
+
+// c15TeeWriters: the HTTP proxy relays through io.MultiWriter(backend, recorder). MultiWriter turns a short count of ANY of
+// its writers into io.ErrShortWrite and the handler then drops both connections, so an in-repo writer placed beside the
+// backend must honour io.Writer's contract: with a nil error it reports len(p) (or the count of an inner Write of p).
+func c15TeeWriters(c *Ctx, px *c15Proxier) {
+	p := c.P
+	for _, fn := range px.reach {
+		for _, call := range Calls(fn) {
+			if !CalleeIs(call, "io", "MultiWriter") {
+				continue
+			}
+			for _, a := range variadicArgs(call.Common().Args[0]) {
+				mi, ok := a.(*ssa.MakeInterface)
+				if !ok {
+					continue
+				}
+				nt := NamedOf(mi.X.Type())
+				if nt == nil || nt.Obj().Pkg() == nil || !strings.HasPrefix(nt.Obj().Pkg().Path(), ModPath) {
+					continue
+				}
+				w := p.Method(RelPkg(nt.Obj().Pkg().Path()), nt.Obj().Name(), "Write")
+				if w == nil || w.Blocks == nil || len(w.Params) != 2 {
+					continue
+				}
+				key := fmt.Sprintf("%s: %s.Write beside the backend in io.MultiWriter", px.name, TypeKey(nt))
+				bad := ""
+				for _, r := range Returns(w) {
+					rv := RetVals(r)
+					if len(rv) != 2 {
+						continue
+					}
+					// `return inner.Write(q)`: the count is the inner writer's for q, which must be all of p
+					if e0, ok := rv[0].(*ssa.Extract); ok {
+						if e1, ok := rv[1].(*ssa.Extract); ok && e0.Tuple == e1.Tuple {
+							if ic, ok := e0.Tuple.(*ssa.Call); ok {
+								whole := false
+								for _, ia := range ic.Call.Args {
+									if ia == ssa.Value(w.Params[1]) {
+										whole = true
+									}
+								}
+								if !whole {
+									bad = "it forwards only part of p to the inner writer and returns that writer's count at " + p.InstrPos(r)
+								}
+								continue
+							}
+						}
+					}
+					if !IsNilConst(rv[1]) {
+						continue
+					}
+					okN := false
+					switch x := rv[0].(type) {
+					case *ssa.Call:
+						if bi, ok := x.Call.Value.(*ssa.Builtin); ok && bi.Name() == "len" && x.Call.Args[0] == ssa.Value(w.Params[1]) {
+							okN = true
+						}
+					case *ssa.Extract:
+						if ic, ok := x.Tuple.(*ssa.Call); ok && x.Index == 0 {
+							for _, ia := range ic.Call.Args {
+								if ia == ssa.Value(w.Params[1]) {
+									okN = true
+								}
+							}
+						}
+					}
+					if !okN {
+						bad = "with a nil error it returns " + RenderN(rv[0], 3) + " at " + p.InstrPos(r)
+					}
+				}
+				c.Check(bad == "", "tee-writer-contract", key, p.InstrPos(call), "reports len(p) on success", "the recorder written in parallel with the backend can report a short count without an error ("+bad+"): io.MultiWriter turns that into ErrShortWrite, the handler returns and the request/reply in flight is cut off for sizes beyond the recorder's limit")
 			}
 		}
 	}
